@@ -15,5 +15,6 @@ def check(fb, ctx):
     authz.trust_rules(fb, ctx)
     authz.loading_rules(fb, ctx)
     authz.checkkind_rules(fb, ctx)
+    authz.scope_arg_rules(fb, ctx)
     ctx.not_decided = ["the implication `extended token authorised => original authorised` itself (a statement about fixpoints of arbitrary programs)", "non-monotone interaction of check all / reject if with later blocks beyond per-block scoping"]
     ctx.trusted = ["rustc HIR/typeck resolution", "std BTreeSet::is_superset"]
